@@ -581,7 +581,11 @@ impl Snap {
                 break;
             }
             // Make sure we'll have space for at least 256 additional extended types.
-            if id < next_type_id + 256 {
+            // Ignore registry IDs outside the range the builder hands out.
+            if OFFSET_EXTENDED_TYPE_ID <= id
+                && id < 0x7fff
+                && u32::from(id) < u32::from(next_type_id) + 256
+            {
                 next_type_id = id + 1;
             }
         }
